@@ -24,7 +24,7 @@ from grandalf.graphs import Vertex, Edge, Graph
 from amoco.cas.mapper import mapper
 from amoco.system.memory import MemoryZone
 from collections import defaultdict
-from amoco.code import _code_misc_default
+from amoco.code import _code_misc_default, block
 
 # ------------------------------------------------------------------------------
 class node(Vertex):
@@ -268,26 +268,75 @@ class graph(Graph):
         oldnode = mo.data.val
         if oldnode == v:
             return oldnode
+        if oldnode.data.address == vaddr:
+            # v restarts an existing block: keep oldnode and add only
+            # the instructions of v located after oldnode (if any).
+            if len(v) > len(oldnode):
+                rest = v.data[len(oldnode) :]
+                if rest is None:
+                    return self.__overlay_add_vertex(v, mz, vaddr)
+                n = self.add_vertex(node(rest), None if mz is self.support else mz)
+                self.add_edge(link(oldnode, n))
+            return oldnode
         # so v cuts an existing block:
         # if vaddr matches an oldblock instr, cut it:
+        I = oldnode.data.instr
         cutdone = oldnode.cut(vaddr)
         if not cutdone:
-            if mz is self.overlay:
-                logger.warning("double overlay block at %s" % vaddr)
-                v = super(graph, self).add_vertex(v)
-                v.misc["double-overlay"] = 1
-                return v
-            overlay = self.overlay or MemoryZone()
-            return self.add_vertex(v, support=overlay)
+            return self.__overlay_add_vertex(v, mz, vaddr)
         else:
             oldnode.misc["cut"] = cutdone
-            v = super(graph, self).add_vertex(v)  # ! avoid recursion for add_edge
-            mz.write(vaddr, v)
-            self.add_edge(link(oldnode, v))
-            for n in oldnode.N(+1):
+            tail = block(I[len(I) - cutdone :])
+            if len(tail) > len(v):
+                # v is only a part of what has been cut: keep it all
+                v = node(tail)
+            # links from oldnode now start from v:
+            succ = oldnode.N(+1)
+            v = self.__gap_add_vertex(v, mz, vaddr, mz.locate(vaddr))
+            for n in succ:
                 self.add_edge(link(v, n))
                 self.remove_edge(oldnode.e_to(n))
+            self.add_edge(link(oldnode, v))
             return v
+
+    def __overlay_add_vertex(self, v, mz, vaddr):
+        if mz is self.overlay:
+            logger.warning("double overlay block at %s" % vaddr)
+            v = super(graph, self).add_vertex(v)
+            v.misc["double-overlay"] = 1
+            return v
+        overlay = self.overlay or MemoryZone()
+        return self.add_vertex(v, support=overlay)
+
+    def __gap_add_vertex(self, v, support, vaddr, i):
+        # v does not cut an existing block, but may swallow next one...
+        rest = None
+        try:
+            nextmo = support._map[0 if i is None else i + 1]
+        except IndexError:
+            # no more nodes here so back to default case:
+            pass
+        else:
+            nextnode = nextmo.data.val
+            nextaddr = nextnode.data.address
+            if vaddr + len(v) > nextaddr:
+                # nextnode is inside v...
+                # try to cut v at nextnode bound:
+                I = v.data.instr
+                cutdone = v.cut(nextaddr)
+                if not cutdone:
+                    # nextnode address does not match an instruction in v...
+                    # thats an overlay:
+                    return self.__overlay_add_vertex(v, support, vaddr)
+                rest = block(I[len(I) - cutdone :])
+        v = super(graph, self).add_vertex(v)  # before support write !!
+        support.write(vaddr, v)
+        if rest is not None:
+            # the instructions of v located after the cut are added as well
+            # (nextnode is returned unless rest is in overlay.)
+            n = self.add_vertex(node(rest), None if support is self.support else support)
+            self.add_edge(link(v, n))
+        return v
 
     def add_vertex(self, v, support=None):
         if v.data._is_func:
@@ -305,31 +354,7 @@ class graph(Graph):
             mo = support._map[i]
             if vaddr in mo:
                 return self.__cut_add_vertex(v, support, vaddr, mo)
-            else:  # v does not cut an existing block,
-                try:  # but may swallow next one...
-                    nextmo = support._map[i + 1]
-                except IndexError:
-                    # no more nodes here so back to default case:
-                    pass
-                else:
-                    nextnode = nextmo.data.val
-                    if vaddr + len(v) > nextnode.data.address:
-                        # nextnode is inside v...
-                        # try to cut v at nextnode bound:
-                        cutdone = v.cut(nextnode.data.address)
-                        if not cutdone:
-                            # nextnode address does not match an instruction in v...
-                            # thats an overlay:
-                            if support is self.overlay:
-                                # we already are in overlay...
-                                logger.warning("double overlay block at %s" % vaddr)
-                                v = super(graph, self).add_vertex(v)
-                                v.misc["double-overlay"] = 1
-                                return v
-                            support = self.overlay or MemoryZone()
-        v = super(graph, self).add_vertex(v)  # before support write !!
-        support.write(vaddr, v)
-        return v
+        return self.__gap_add_vertex(v, support, vaddr, i)
 
     def get_by_name(self, name):
         for v in self.V():
